@@ -240,12 +240,9 @@ func (c *Ctx) contractCall(fr *Frame, st *State, site ssa.Instruction, fn *ssa.F
 		c.assume(g.Term)
 	}
 	c.atCallAsserts(fr, st, site, fn, env)
-	if con.Fd != "" {
-		want := con.Fd
-		if want == "entry" {
-			want = "0"
-		}
-		c.oblige("pre", fmt.Sprintf("%s#call[%s].pre[fd]", caller, callee), "C14.fd", []string{"C14"}, eq(fd, want), site.Pos(), "fd == "+want)
+	if con.Fd != "" && con.Fd != "entry" {
+		// the callee assumes a fixed distance from the user's call statement
+		c.oblige("pre", fmt.Sprintf("%s#call[%s].pre[fd]", caller, callee), "C14.fd", []string{"C14"}, eq(fd, con.Fd), site.Pos(), "fd == "+con.Fd)
 	}
 	var exits []*exitInfo
 	if con.Panics != nil {
@@ -313,6 +310,9 @@ func (c *Ctx) contractCall(fr *Frame, st *State, site ssa.Instruction, fn *ssa.F
 	for _, en := range con.Ensures {
 		g := post.evalTop(en)
 		c.assume(g.Term)
+	}
+	for _, pe := range con.PostEffects {
+		c.applyEffect(post, st, pe)
 	}
 	if c.prog.inRoot(c.fn) && c.dry == 0 && c.pure == 0 && (con.AssignsAll || len(con.Assigns) > 0) {
 		c.assumeInvariants(st)
@@ -482,7 +482,7 @@ func (c *Ctx) atCallAsserts(fr *Frame, st *State, site ssa.Instruction, callee *
 		if a.Where != "call "+rel && a.Where != "call "+callee.String() {
 			continue
 		}
-		env := &Env{c: c, fr: top, fn: top.fn, st: st, old: top.old, vars: map[string]*Val{}, fd: top.fd}
+		env := &Env{c: c, fr: top, fn: top.fn, st: st, old: top.old, vars: map[string]*Val{}, fd: top.fd, cells: fr == top}
 		for i, p := range top.fn.Params {
 			if i < len(top.params) {
 				env.vars[p.Name()] = top.params[i]
@@ -491,6 +491,7 @@ func (c *Ctx) atCallAsserts(fr *Frame, st *State, site ssa.Instruction, callee *
 		for k, v := range cenv.vars {
 			env.vars["callee."+k] = v
 		}
+		env.vars["callee.fd"] = intVal(cenv.fd)
 		if a.Effect != nil {
 			continue
 		}
